@@ -99,6 +99,20 @@ theorem accepted_pages_count_rows (leaf : Leaf) (pages : List (PageInfo × List 
   have := decodePages_count leaf pages {} acc h
   simpa using this
 
+/-- **…with one definition level per value**: for the accepted pages of a chunk the validator has decoded exactly as many
+    definition levels as `num_values` announces, page by page (v1: the length-prefixed block must yield `num_values` levels;
+    v2: the level bytes must) — so for a flat column "cells = levels" and the null count it derives (levels below the maximum)
+    is a count over exactly the chunk's rows. -/
+theorem accepted_pages_one_level_per_value (leaf : Leaf) (pages : List (PageInfo × List Nat)) (acc : PageAcc)
+    (h : decodePages leaf {} pages = .ok acc) :
+    acc.defs.length = acc.count := by
+  have h1 := decodePages_defs leaf pages {} acc h
+  have h2 := decodePages_count leaf pages {} acc h
+  simp only [List.length_nil, Nat.zero_add] at h1
+  have h3 : ({} : PageAcc).count = 0 := rfl
+  rw [h3, Nat.zero_add] at h2
+  rw [h1, h2]
+
 /-! ### non-vacuity -/
 example : levelsV1 1 5 (leBytes 4 2 ++ encodeRuns 1 [Run.bp [1, 0, 1, 1, 0, 0, 0, 0]] ++ [9])
     = some ([1, 0, 1, 1, 0], [9]) := by decide +kernel
